@@ -167,3 +167,274 @@ impl Channel {
         proof { assert(self.users@ =~= old(self).users@.remove(sk(nick))); }
 //@end
 }
+
+pub open spec fn rekey(s: Set<String>, o: String, n: String) -> Set<String> {
+    if s.contains(o) { s.remove(o).insert(n) } else { s }
+}
+pub open spec fn orekey(s: Option<HashSet<String>>, o: String, n: String) -> Set<String> { rekey(oset(s), o, n) }
+
+impl ChannelModes {
+//@fn config.rs ChannelModes::rename_user unit=structs props=C15,C04
+//@spec
+        ensures
+            oset(final(self).operators) == orekey(old(self).operators, *old_nick, nick), // @prop C15
+            oset(final(self).half_operators) == orekey(old(self).half_operators, *old_nick, nick), // @prop C15
+            oset(final(self).voices) == orekey(old(self).voices, *old_nick, nick), // @prop C15
+            oset(final(self).founders) == orekey(old(self).founders, *old_nick, nick), // @prop C15
+            oset(final(self).protecteds) == orekey(old(self).protecteds, *old_nick, nick), // @prop C15
+            final(self).ban == old(self).ban && final(self).exception == old(self).exception // @prop C15
+              && final(self).client_limit == old(self).client_limit && final(self).invite_exception == old(self).invite_exception
+              && final(self).key == old(self).key && final(self).invite_only == old(self).invite_only
+              && final(self).moderated == old(self).moderated && final(self).secret == old(self).secret
+              && final(self).protected_topic == old(self).protected_topic
+              && final(self).no_external_messages == old(self).no_external_messages,
+//@open
+        broadcast use group_hash_axioms, bridge;
+//@end
+}
+
+pub open spec fn add_user_post(o: Channel, n: Channel, nick: String) -> bool {
+    &&& chan_rest_eq(o, n)
+    &&& n.users@ == o.users@.insert(nick, ChannelUserModes {
+            founder: o.default_modes.founders@.contains(nick),
+            protected: o.default_modes.protecteds@.contains(nick),
+            voice: o.default_modes.voices@.contains(nick),
+            operator: o.default_modes.operators@.contains(nick),
+            half_oper: o.default_modes.half_operators@.contains(nick) })
+    &&& oset(n.modes.founders) == (if o.default_modes.founders@.contains(nick) { oset(o.modes.founders).insert(nick) } else { oset(o.modes.founders) })
+    &&& oset(n.modes.protecteds) == (if o.default_modes.protecteds@.contains(nick) { oset(o.modes.protecteds).insert(nick) } else { oset(o.modes.protecteds) })
+    &&& oset(n.modes.operators) == (if o.default_modes.operators@.contains(nick) { oset(o.modes.operators).insert(nick) } else { oset(o.modes.operators) })
+    &&& oset(n.modes.half_operators) == (if o.default_modes.half_operators@.contains(nick) { oset(o.modes.half_operators).insert(nick) } else { oset(o.modes.half_operators) })
+    &&& oset(n.modes.voices) == (if o.default_modes.voices@.contains(nick) { oset(o.modes.voices).insert(nick) } else { oset(o.modes.voices) })
+}
+pub proof fn lemma_add_user_wf(o: Channel, n: Channel, nick: String)
+    requires chan_wf(o), add_user_post(o, n, nick), !o.users@.contains_key(nick),
+    ensures chan_wf(n)
+{
+    assert forall|m: String| #[trigger] oset(n.modes.founders).contains(m) <==> (n.users@.contains_key(m) && n.users@[m].founder) by {
+        assert(oset(o.modes.founders).contains(m) <==> (o.users@.contains_key(m) && o.users@[m].founder)); }
+    assert forall|m: String| #[trigger] oset(n.modes.protecteds).contains(m) <==> (n.users@.contains_key(m) && n.users@[m].protected) by {
+        assert(oset(o.modes.protecteds).contains(m) <==> (o.users@.contains_key(m) && o.users@[m].protected)); }
+    assert forall|m: String| #[trigger] oset(n.modes.operators).contains(m) <==> (n.users@.contains_key(m) && n.users@[m].operator) by {
+        assert(oset(o.modes.operators).contains(m) <==> (o.users@.contains_key(m) && o.users@[m].operator)); }
+    assert forall|m: String| #[trigger] oset(n.modes.half_operators).contains(m) <==> (n.users@.contains_key(m) && n.users@[m].half_oper) by {
+        assert(oset(o.modes.half_operators).contains(m) <==> (o.users@.contains_key(m) && o.users@[m].half_oper)); }
+    assert forall|m: String| #[trigger] oset(n.modes.voices).contains(m) <==> (n.users@.contains_key(m) && n.users@[m].voice) by {
+        assert(oset(o.modes.voices).contains(m) <==> (o.users@.contains_key(m) && o.users@[m].voice)); }
+}
+
+impl Channel {
+//@fn state/structs.rs Channel::add_user unit=structs props=C04,C07,C16
+//@spec
+        requires !old(self).users@.contains_key(*user_nick), chan_wf(*old(self)),
+        ensures
+            add_user_post(*old(self), *final(self), *user_nick), // @prop C04,C07,C16
+            chan_wf(*final(self)), // @prop C04
+//@open
+        broadcast use group_hash_axioms, bridge;
+//@close
+        proof { lemma_add_user_wf(*old(self), *self, *user_nick); }
+//@end
+//@fn state/structs.rs Channel::rename_user unit=structs props=C04,C15
+//@spec
+        requires old(self).users@.contains_key(*old_nick), !old(self).users@.contains_key(nick), chan_wf(*old(self)),
+        ensures
+            chan_rest_eq(*old(self), *final(self)), // @prop C15
+            final(self).users@ == old(self).users@.remove(*old_nick).insert(nick, old(self).users@[*old_nick]), // @prop C15,C04
+            oset(final(self).modes.operators) == orekey(old(self).modes.operators, *old_nick, nick), // @prop C15
+            oset(final(self).modes.half_operators) == orekey(old(self).modes.half_operators, *old_nick, nick), // @prop C15
+            oset(final(self).modes.voices) == orekey(old(self).modes.voices, *old_nick, nick), // @prop C15
+            oset(final(self).modes.founders) == orekey(old(self).modes.founders, *old_nick, nick), // @prop C15
+            oset(final(self).modes.protecteds) == orekey(old(self).modes.protecteds, *old_nick, nick), // @prop C15
+            chan_wf(*final(self)), // @prop C04
+//@open
+        broadcast use group_hash_axioms, bridge;
+//@close
+        proof {
+            assert forall|n: String| #[trigger] oset(self.modes.founders).contains(n) <==> (self.users@.contains_key(n) && self.users@[n].founder) by {
+                assert(oset(old(self).modes.founders).contains(n) <==> (old(self).users@.contains_key(n) && old(self).users@[n].founder)); }
+            assert forall|n: String| #[trigger] oset(self.modes.protecteds).contains(n) <==> (self.users@.contains_key(n) && self.users@[n].protected) by {
+                assert(oset(old(self).modes.protecteds).contains(n) <==> (old(self).users@.contains_key(n) && old(self).users@[n].protected)); }
+            assert forall|n: String| #[trigger] oset(self.modes.operators).contains(n) <==> (self.users@.contains_key(n) && self.users@[n].operator) by {
+                assert(oset(old(self).modes.operators).contains(n) <==> (old(self).users@.contains_key(n) && old(self).users@[n].operator)); }
+            assert forall|n: String| #[trigger] oset(self.modes.half_operators).contains(n) <==> (self.users@.contains_key(n) && self.users@[n].half_oper) by {
+                assert(oset(old(self).modes.half_operators).contains(n) <==> (old(self).users@.contains_key(n) && old(self).users@[n].half_oper)); }
+            assert forall|n: String| #[trigger] oset(self.modes.voices).contains(n) <==> (self.users@.contains_key(n) && self.users@[n].voice) by {
+                assert(oset(old(self).modes.voices).contains(n) <==> (old(self).users@.contains_key(n) && old(self).users@[n].voice)); }
+        }
+//@end
+}
+
+impl VolatileState {
+//@fn state/structs.rs VolatileState::remove_user_from_channel unit=structs props=C04,C06,C09,C16
+//@spec
+        requires
+            old(self).channels@.contains_key(sk(channel)) ==> old(self).channels@[sk(channel)].users@.contains_key(sk(nick)),
+        ensures
+            forall|c: String| c != sk(channel) ==> (final(self).channels@.contains_key(c) <==> old(self).channels@.contains_key(c)), // @prop C04,C06
+            forall|c: String| c != sk(channel) && old(self).channels@.contains_key(c) ==> final(self).channels@[c] == old(self).channels@[c], // @prop C04,C06
+            post_chan(old(self).channels@, final(self).channels@, sk(channel), sk(nick)), // @prop C04,C06,C09,C16
+            old(self).channels@.contains_key(sk(channel)) && chan_wf(old(self).channels@[sk(channel)]) && final(self).channels@.contains_key(sk(channel))
+                ==> chan_wf(final(self).channels@[sk(channel)]), // @prop C04
+            final(self).users@.dom() == old(self).users@.dom(), // @prop C06
+            forall|n: String| n != sk(nick) && old(self).users@.contains_key(n) ==> final(self).users@[n] == old(self).users@[n], // @prop C06
+            old(self).users@.contains_key(sk(nick)) ==> // @prop C04,C06
+                final(self).users@[sk(nick)].channels@ == old(self).users@[sk(nick)].channels@.remove(sk(channel))
+                && user_same_except_channels(final(self).users@[sk(nick)], old(self).users@[sk(nick)]),
+            final(self).wallops_users == old(self).wallops_users && final(self).invisible_users_count == old(self).invisible_users_count // @prop C06
+              && final(self).operators_count == old(self).operators_count && final(self).max_users_count == old(self).max_users_count
+              && final(self).nick_histories == old(self).nick_histories && final(self).quit_sender == old(self).quit_sender
+              && final(self).quit_receiver == old(self).quit_receiver,
+//@open
+        broadcast use group_hash_axioms, bridge;
+//@end
+
+//@fn state/structs.rs VolatileState::insert_to_nick_history unit=structs props=C06,C15
+//@spec
+        ensures
+            final(self).nick_histories@.dom() == old(self).nick_histories@.dom().insert(*old_nick), // @prop C06,C15
+            final(self).nick_histories@[*old_nick]@ == (if old(self).nick_histories@.contains_key(*old_nick) { old(self).nick_histories@[*old_nick]@ } else { Seq::empty() }).push(nhe), // @prop C06,C15
+            forall|k: String| k != *old_nick && old(self).nick_histories@.contains_key(k) ==> final(self).nick_histories@[k] == old(self).nick_histories@[k], // @prop C06
+            final(self).users == old(self).users && final(self).channels == old(self).channels && final(self).wallops_users == old(self).wallops_users // @prop C06
+              && final(self).invisible_users_count == old(self).invisible_users_count
+              && final(self).operators_count == old(self).operators_count && final(self).max_users_count == old(self).max_users_count
+              && final(self).quit_sender == old(self).quit_sender && final(self).quit_receiver == old(self).quit_receiver,
+//@open
+        broadcast use group_hash_axioms, bridge;
+//@end
+}
+
+impl VolatileState {
+//@fn state/structs.rs VolatileState::add_user unit=structs props=C02,C19,C11
+//@spec
+        requires
+            state_wf(*old(self)),
+            !old(self).users@.contains_key(sk(unick)),
+            user.channels@ == Set::<String>::empty(),
+            forall|n: String| old(self).users@.contains_key(n) ==> (#[trigger] old(self).users@[n]).sender.id() != user.sender.id(),
+        ensures
+            final(self).users@ == old(self).users@.insert(sk(unick), user), // @prop C02,C19
+            final(self).channels == old(self).channels && final(self).nick_histories == old(self).nick_histories // @prop C02
+              && final(self).quit_sender == old(self).quit_sender && final(self).quit_receiver == old(self).quit_receiver,
+            state_wf(*final(self)), // @prop C19,C04
+//@open
+        broadcast use group_hash_axioms, bridge, ax_hashmap_len_bound;
+        proof {
+            lemma_inv_insert(self.users@, sk(unick), user);
+            lemma_opr_insert(self.users@, sk(unick), user);
+        }
+//@close
+        proof {
+            assert forall|n: String, c: String| #![trigger self.users@[n].channels@.contains(c)] #![trigger member(*self, n, c)]
+                (self.users@.contains_key(n) && self.users@[n].channels@.contains(c)) <==> member(*self, n, c) by {
+                assert(member(*self, n, c) == member(*old(self), n, c));
+                assert((old(self).users@.contains_key(n) && old(self).users@[n].channels@.contains(c)) <==> member(*old(self), n, c));
+                if n != sk(unick) { if old(self).users@.contains_key(n) { assert(self.users@[n] == old(self).users@[n]); } }
+            }
+            assert(sym(*self));
+            assert(wallops_wf(*self)) by {
+                assert forall|n: String| #[trigger] self.wallops_users@.contains(n) <==> (self.users@.contains_key(n) && self.users@[n].modes.wallops) by {
+                    assert(old(self).wallops_users@.contains(n) <==> (old(self).users@.contains_key(n) && old(self).users@[n].modes.wallops));
+                }
+            }
+            assert(senders_distinct(*self));
+        }
+//@end
+
+//@fn state/structs.rs VolatileState::remove_user unit=structs props=C06,C04,C19 rules=R5
+//@spec
+        requires state_wf(*old(self)),
+        ensures
+            final(self).users@ == old(self).users@.remove(sk(nick)), // @prop C06
+            forall|c: String| post_chan(old(self).channels@, final(self).channels@, c, sk(nick)), // @prop C06,C04,C16
+            final(self).wallops_users@ == old(self).wallops_users@.remove(sk(nick)), // @prop C06
+            old(self).users@.contains_key(sk(nick)) ==> // @prop C06
+                final(self).nick_histories@.dom() == old(self).nick_histories@.dom().insert(sk(nick))
+                && final(self).nick_histories@[sk(nick)]@ == (if old(self).nick_histories@.contains_key(sk(nick)) { old(self).nick_histories@[sk(nick)]@ } else { Seq::empty() }).push(old(self).users@[sk(nick)].history_entry)
+                && (forall|k: String| k != sk(nick) && old(self).nick_histories@.contains_key(k) ==> final(self).nick_histories@[k] == old(self).nick_histories@[k]),
+            !old(self).users@.contains_key(sk(nick)) ==> vs_same(*final(self), *old(self)), // @prop C06,C02
+            final(self).max_users_count == old(self).max_users_count && final(self).quit_sender == old(self).quit_sender // @prop C06,C19
+                && final(self).quit_receiver == old(self).quit_receiver,
+            state_wf(*final(self)), // @prop C04,C06,C19
+//@open
+        broadcast use group_hash_axioms, bridge, lemma_cover_is_exact;
+        let ghost nk = sk(nick);
+//@after ~if let Some\(user\) = self\.users\.remove\(nick\)
+            proof {
+                lemma_opr_remove(old(self).users@, nk);
+                lemma_inv_remove(old(self).users@, nk);
+                assert(user == old(self).users@[nk]);
+            }
+//@before ~for chname in user\.channels\.iter\(\)
+            let ghost chans = user.channels@;
+            let ghost mut done: Set<String> = Set::empty();
+            let ghost mid = *self;
+//@loop ~for chname in user\.channels\.iter\(\) iter=it
+                invariant
+                    nk == sk(nick),
+                    old(self).users@.contains_key(nk),
+                    user == old(self).users@[nk],
+                    chans == user.channels@,
+                    state_wf(*old(self)),
+                    self.users@ == old(self).users@.remove(nk),
+                    self.wallops_users@ == old(self).wallops_users@.remove(nk),
+                    self.invisible_users_count == mid.invisible_users_count && self.operators_count == mid.operators_count
+                        && self.max_users_count == old(self).max_users_count && self.nick_histories == old(self).nick_histories
+                        && self.quit_sender == old(self).quit_sender && self.quit_receiver == old(self).quit_receiver,
+                    it.seq().no_duplicates(),
+                    it.seq().len() == chans.len(),
+                    forall|k: String| chans.contains(k) ==> exists|i: int| 0 <= i < it.seq().len() && *#[trigger] it.seq()[i] == k,
+                    forall|i: int| 0 <= i < it.seq().len() ==> chans.contains(*#[trigger] it.seq()[i]),
+                    forall|c: String| done.contains(c) <==> (exists|j: int| 0 <= j < it.index@ && *#[trigger] it.seq()[j] == c),
+                    forall|c: String| done.contains(c) ==> post_chan(old(self).channels@, self.channels@, c, nk),
+                    forall|c: String| !done.contains(c) ==>
+                        (self.channels@.contains_key(c) <==> old(self).channels@.contains_key(c)) && (old(self).channels@.contains_key(c) ==> self.channels@[c] == old(self).channels@[c]),
+                    chans_wf(*self),
+//@after ~for chname in user\.channels\.iter\(\)
+                broadcast use group_hash_axioms, bridge, lemma_cover_is_exact;
+                proof {
+                    assert(chans.contains(*chname));
+                    assert(member(*old(self), nk, *chname));
+                    assert(!done.contains(*chname));
+                    assert(string_of((*chname)@) == *chname);
+                    assert(self.channels@.contains_key(*chname) && self.channels@[*chname] == old(self).channels@[*chname]);
+                }
+                let ghost pre = *self;
+//@after ~self\.remove_user_from_channel\(chname, nick\);
+                proof {
+                    done = done.insert(*chname);
+                    assert(chans_wf(*self)) by {
+                        assert forall|c: String| self.channels@.contains_key(c) implies chan_wf(#[trigger] self.channels@[c]) by {
+                            if c != *chname { assert(self.channels@[c] == pre.channels@[c]); assert(chan_wf(pre.channels@[c])); }
+                            else { assert(chan_wf(pre.channels@[c])); }
+                        }
+                    }
+                }
+//@before ~self\.insert_to_nick_history\(
+            proof {
+                assert forall|c: String| post_chan(old(self).channels@, self.channels@, c, nk) by {
+                    if chans.contains(c) { assert(done.contains(c)); }
+                    else { assert(!member(*old(self), nk, c)); assert(!done.contains(c)); }
+                }
+            }
+//@close
+        proof {
+            if old(self).users@.contains_key(nk) {
+                lemma_remove_user_wf(*old(self), *self, nk);
+            } else {
+                assert(self.users@ =~= old(self).users@);
+                assert(self.users@.remove(nk) =~= self.users@);
+                assert forall|c: String| post_chan(old(self).channels@, self.channels@, c, nk) by {
+                    assert(!member(*old(self), nk, c));
+                }
+                lemma_sets_same_modes(old(self).users@, self.users@);
+                assert forall|n: String, c: String| #![trigger self.users@[n].channels@.contains(c)] #![trigger member(*self, n, c)]
+                    (self.users@.contains_key(n) && self.users@[n].channels@.contains(c)) <==> member(*self, n, c) by {
+                    assert((old(self).users@.contains_key(n) && old(self).users@[n].channels@.contains(c)) <==> member(*old(self), n, c));
+                }
+                assert(sym(*self));
+                assert(state_wf(*self));
+            }
+        }
+//@end
+}
